@@ -254,6 +254,9 @@ def verify_unit(name, timeout=600, rlimit=None):
     clauses, asserts, groups, fns = scan_obligations(unit)
     path, _ = write_unit(unit, name + '.rs')
     r = run_verus(path, timeout=timeout, rlimit=rlimit)
+    if rlimit is None and any(d.get('level') == 'error' and re.search(RESOURCE, d.get('message', ''), re.I) for d in r['diags']):
+        # a query that hits the default resource limit is retried once with a 10x budget before it counts as undecided
+        r = run_verus(path, timeout=1500, rlimit=100)
     res = UnitResult()
     res.unit, res.path, res.raw = unit, path, r
     res.clauses, res.asserts, res.groups, res.fns = clauses, asserts, groups, fns
@@ -316,6 +319,9 @@ def verify_unit(name, timeout=600, rlimit=None):
                 name_ = a['name']
             elif o[0] == 'S':
                 name_ = '%s.panic-free' % fname
+        if name_ is None and kind == 'call-pre' and o[0] in ('S', 'S+T') and \
+                re.search(r'\b(assert|debug_assert|panic|unreachable)!\s*\(|\.unwrap\(\)|\.expect\(', unit.lines[pl - 1].text):
+            name_ = '%s.panic-free' % fname
         if name_ is None and kind == 'call-pre':
             if o[0] in ('S', 'S+T'):
                 # callee contract in this file => call-pre; std (vstd spec) => panic-free
